@@ -61,7 +61,45 @@ def cases(tier):
             for order in ("natural", "reversed", "stride3", "stride5", "interleave-halves"):
                 for wind in ("consistent", "alternate"):
                     out.append({"solid": kind, "n": n, "order": None, "pl": pq[(n + len(order)) % 8], "variant": "merge", "frev": False, "relabel": False, "wind": wind, "tri_order": order, "pts": []})
+    # sort_faces from arbitrarily wound faces in an arbitrary face-list order: EVERY winding pattern (one bit per face)
+    # x a fixed set of face-list orders on solids whose dual graph is not complete (orientation has to be propagated
+    # through faces that are not adjacent to face 0)
+    solids = [("octahedron", 0), ("prism", 5), ("prism", 6), ("pyramid", 5), ("pyramid", 6)] + ([] if q else [("prism", 7), ("pyramid", 8), ("prism", 8)])
+    for kind, n in solids:
+        nf = len(solid_structure(kind, n)[1])
+        for fo in FORDERS:
+            for mask in range(2**nf):
+                if q and nf > 7 and kind != "octahedron" and mask % 2:
+                    continue
+                out.append({"solid": kind, "n": n, "order": None, "pl": pq[(mask + nf) % 8], "variant": "sort", "mask": mask, "forder": fo, "pts": []})
     return out
+
+
+FORDERS = ["natural", "reversed", "stride3", "interleave-halves", "last-first", "rot2", "evens-then-odds"]
+
+
+def order_faces(fs, fo):
+    m = len(fs)
+    if fo == "natural":
+        return list(fs)
+    if fo == "reversed":
+        return fs[::-1]
+    if fo == "stride3":
+        st = 3
+        while __import__("math").gcd(st, m) != 1:
+            st += 1
+        return [fs[(i * st) % m] for i in range(m)]
+    if fo == "interleave-halves":
+        h = m // 2
+        a_, b_ = fs[:h], fs[h:]
+        return [x for pair in zip(b_, a_) for x in pair] + b_[len(a_):]
+    if fo == "last-first":
+        return fs[-1:] + fs[:-1]
+    if fo == "rot2":
+        return fs[2:] + fs[:2]
+    if fo == "evens-then-odds":
+        return fs[0::2] + fs[1::2]
+    raise ValueError(fo)
 
 
 def solid_structure(kind, n):
@@ -69,6 +107,10 @@ def solid_structure(kind, n):
     import math as _m
 
     ring = [(_m.cos(2 * _m.pi * i / n), _m.sin(2 * _m.pi * i / n)) for i in range(n)]
+    if kind == "octahedron":
+        P = [(1.0, 0.0, 0.0), (-1.0, 0.0, 0.0), (0.0, 1.0, 0.0), (0.0, -1.0, 0.0), (0.0, 0.0, 1.0), (0.0, 0.0, -1.0)]
+        faces = [[0, 2, 4], [2, 1, 4], [1, 3, 4], [3, 0, 4], [2, 0, 5], [1, 2, 5], [3, 1, 5], [0, 3, 5]]
+        return P, faces
     if kind == "prism":
         P = [(x, y, 0.7) for x, y in ring] + [(x, y, -0.7) for x, y in ring]
         faces = [list(range(n)), [n + i for i in range(n)][::-1]]
@@ -151,6 +193,12 @@ def run_case(case):
     try:
         if variant == "convex":
             obj = ConvexPolyhedron(F.copy())
+        elif variant == "sort" and "mask" in case:
+            # face i reversed iff bit i of the mask, every face also cyclically shifted, face list re-ordered
+            fs = [permute_face(f[::-1] if (case["mask"] >> i) & 1 else f, "shift", i) for i, f in enumerate(ex_faces)]
+            fs = order_faces(fs, case["forder"])
+            obj = Polyhedron(F.copy(), [np.array(f) for f in fs], faces_are_convex=True)
+            obj.sort_faces()
         elif variant == "sort":
             fs = [permute_face(f, case["perm"], i) for i, f in enumerate(ex_faces)]
             if case["frev"]:
